@@ -188,7 +188,7 @@ def check_emitter_profile(run: Run, lm: lexmodel.LexModel) -> None:
 
 # ======================================================================================= R03.6
 def check_blank_lines(run: Run, pmodel: ParserModel) -> None:
-    run.rule("R03.6", "blank lines between a header and its first child are dropped: at every test of the INDENT token that opens a child region (the next statement takes the indent width from it) the current token cannot be a NEWLINE, i.e. the NEWLINEs after the header were skipped by a loop", 4)
+    run.rule("R03.6", "blank lines between a header and its first child are dropped: at every test of the INDENT token that opens a child region (the next statement takes the indent width from it) the current token cannot be a NEWLINE, i.e. the NEWLINEs after the header were skipped by a loop", 3)
     pm = pmodel.pm
     n = 0
     for name in ("parse_section", "parse_section_marker", "parse_meta_block"):
@@ -283,6 +283,54 @@ def check_optional_envelope(run: Run) -> None:
             run.violation("R03.8", pm, "Parser.parse_document", f"expect({kind}) unguarded", f"parse_document requires {kind}: a document that omits the envelope line (a documented lenient freedom) is refused instead of converging on the canonical text")
 
 
+# ======================================================================================= R03.9 / R03.10
+def check_end_optional_sets(run: Run) -> None:
+    run.rule("R03.9", "===END=== is optional, so end of input must behave like it: every collection of TokenType members in parser.py (tuples/sets in membership tests, module frozensets) that contains ENVELOPE_END also contains EOF", 6)
+    pm = run.project.mod("core.parser")
+    n = 0
+    for node in ast.walk(pm.tree):
+        if isinstance(node, (ast.Tuple, ast.Set, ast.List)) and node.elts and all(isinstance(e, ast.Attribute) and isinstance(e.value, ast.Name) and e.value.id == "TokenType" for e in node.elts):
+            names = [e.attr for e in node.elts]  # type: ignore[union-attr]
+            if "ENVELOPE_END" not in names:
+                continue
+            n += 1
+            ok = "EOF" in names
+            fn = pm.enclosing_function(node) or "<module>"
+            run.instance("R03.9", pm.loc(node), f"{fn}: {names}", ok=ok)
+            if not ok:
+                run.violation("R03.9", pm, fn, f"token set {sorted(names)} without EOF", f"this set treats ===END=== as a terminator but not the end of input: a document that omits ===END=== (a documented lenient freedom) takes the other branch here and does not converge with the spelling that has it")
+    if n < 6:
+        raise AnalysisError(f"only {n} token sets with ENVELOPE_END found in parser.py")
+
+
+def check_indent_units(run: Run) -> None:
+    run.rule("R03.10", "indent widths (0-based counts of spaces carried by INDENT tokens) are never compared with token columns (1-based) without an explicit +/-1: a mixed comparison is off by one exactly for 1-space indentation", 1)
+    pm = run.project.mod("core.parser")
+    n_cmp = 0
+    for fi in pm.functions.values():
+        for node in walk_no_nested(fi.node):
+            if not isinstance(node, ast.Compare):
+                continue
+            sides = [node.left] + list(node.comparators)
+            def kind(e):
+                names = {x.id for x in ast.walk(e) if isinstance(x, ast.Name)}
+                is_indent = any("indent" in nm.lower() for nm in names) or (isinstance(e, ast.Attribute) and e.attr == "value" and "INDENT" in _text(fi.node)[max(0, 0):0])
+                is_col = any(isinstance(x, ast.Attribute) and x.attr == "column" for x in ast.walk(e))
+                adj = any(isinstance(x, ast.BinOp) and isinstance(x.op, (ast.Add, ast.Sub)) and any(isinstance(y, ast.Constant) and y.value == 1 for y in (x.left, x.right)) for x in ast.walk(e))
+                return is_indent, is_col, adj
+            ks = [kind(e) for e in sides]
+            if any(k[0] and not k[1] for k in ks):
+                n_cmp += 1
+            indent_side = any(k[0] and not k[1] for k in ks)
+            # `.value` of the current token compared with a column inside a function that handles INDENT tokens
+            value_side = any(isinstance(e, ast.Attribute) and e.attr == "value" and _text(e.value) in ("self.current()", "token", "tok") for e in sides)
+            col_side = any(k[1] and not k[0] for k in ks)
+            adjusted = any(k[2] for k in ks)
+            if (indent_side or value_side) and col_side and not adjusted:
+                run.violation("R03.10", pm, fi.qualname, f"{_text(node)[:70]}", f"`{_text(node)[:70]}` compares an indentation width (0-based count of spaces) with a token column (1-based): the test is off by one, which changes the parentage of children for documents indented by a single space per level")
+    run.instance("R03.10", pm.relpath, f"{n_cmp} comparisons on indentation widths, none against a column", ok=True)
+
+
 def check(run: Run) -> None:
     lm = lexmodel.build(run.project)
     tt = enum_members(run.project, "core.lexer", "TokenType")
@@ -294,4 +342,6 @@ def check(run: Run) -> None:
     check_blank_lines(run, pmodel)
     check_structure_detection(run, lm)
     check_optional_envelope(run)
+    check_end_optional_sets(run)
+    check_indent_units(run)
     run.assume("that two concrete spellings of one document yield identical canonical bytes is not decided (it rests on how the hand-written parser groups runtime token streams); only the table, profile and tolerance conditions above")
